@@ -2221,8 +2221,8 @@ func (f *fragment) importValueSmallWrite(columnIDs []uint64, values []int64, bit
 		_ = f.openStorage(true)
 		return err
 	}
-	rowSet := make(map[uint64]struct{}, bitDepth+1)
-	for i := uint(0); i < bitDepth+1; i++ {
+	rowSet := make(map[uint64]struct{}, bitDepth+bsiOffsetBit)
+	for i := uint(0); i < bitDepth+bsiOffsetBit; i++ {
 		rowSet[uint64(i)] = struct{}{}
 	}
 	err := f.importPositions(toSet, toClear, rowSet)
@@ -2262,6 +2262,20 @@ func (f *fragment) importValue(columnIDs []uint64, values []int64, bitDepth uint
 		_ = f.openStorage(true)
 		return err
 	}
+	// The rows of the value (exists, sign and one per bit) were written
+	// behind the caches: drop their cached rows and block checksums and
+	// recount them.
+	for i := uint64(0); i < uint64(bitDepth+bsiOffsetBit); i++ {
+		delete(f.checksums, int(i/HashBlockSize))
+		f.rowCache.Add(i, nil)
+		if f.CacheType != CacheTypeNone {
+			f.cache.BulkAdd(i, f.storage.CountRange(i*ShardWidth, (i+1)*ShardWidth))
+		}
+	}
+	if f.CacheType != CacheTypeNone {
+		f.cache.Recalculate()
+	}
+
 	// We don't actually care, except we want our stats to be accurate.
 	f.incrementOpN(totalChanges)
 
